@@ -49,20 +49,19 @@ theorem consistent_history (K : Consts) (ops : List TsOp) :
       apply ih
       cases op with
       | createType n s d =>
-        unfold applyOp
-        split
-        · exact h
-        · rename_i hn
-          split
-          · rename_i ts' hts
-            exact consistent_createType K ts ts' n s d h (by simpa using hn) hts
-          · exact h
+        simp only [applyOp]
+        cases hn : hasExact ts n with
+        | true => simpa using h
+        | false =>
+          simp only [Bool.false_eq_true, if_false]
+          cases hts : createType K ts n s d with
+          | ok ts' => exact consistent_createType K ts ts' n s d h hn hts
+          | error e => exact h
       | createFeature dom n r e d m =>
-        unfold applyOp
-        split
-        · rename_i ts' hts
-          exact consistent_createFeature ts ts' dom n r e d m h hts
-        · exact h
+        simp only [applyOp]
+        cases hts : createFeature ts dom n r e d m with
+        | ok ts' => exact consistent_createFeature ts ts' dom n r e d m h hts
+        | error e => exact h
   exact this _ consistent_builtins.1
 
 /-! ### Under the invariant, all queries describe the same tree -/
@@ -127,12 +126,15 @@ theorem containsType_iff (ts : TypeSystem) (n : String) :
 
 theorem createType_final_error (K : Consts) (ts : TypeSystem) (n s : String) (d : Option String)
     (h : K.finalTypes.contains s = true) : createType K ts n s d = .error .valueError := by
-  simp [createType, h, throw, throwThe, MonadExceptOf.throw, bind, Except.bind]
+  unfold createType
+  simp only [h, if_true, bind, Except.bind, throw, throwThe, MonadExceptOf.throw]
 
 theorem createType_duplicate_user_error (K : Consts) (ts : TypeSystem) (n s : String) (d : Option String)
     (hs : K.finalTypes.contains s = false) (h : hasExact ts n = true) (hp : K.predefined.contains n = false) :
     createType K ts n s d = .error .valueError := by
-  simp [createType, hs, h, hp, throw, throwThe, MonadExceptOf.throw, bind, Except.bind, pure, Except.pure]
+  unfold createType
+  simp only [hs, h, hp, Bool.false_eq_true, if_false, Bool.not_false, Bool.and_self, if_true,
+    bind, Except.bind, throw, throwThe, MonadExceptOf.throw, pure, Except.pure]
 
 /-! Non-vacuity (tests of concrete instances) -/
 example : hasExact Gen.builtinTS "uima.tcas.Annotation" = true := by decide
